@@ -19,6 +19,10 @@ def warm():
     import AEIC.trajectories.store  # noqa: F401
 
     G.register_catalogue()
+    import warnings
+
+    # expected and harmless: opening an associated file that recomputes a field set the base has
+    warnings.filterwarnings('ignore', message='FieldSet with name', category=RuntimeWarning)
 
 
 # ----------------------------------------------------------------- swarm config
@@ -47,8 +51,8 @@ def draw_config(rng: random.Random, prop: str) -> dict:
         'create': 2, 'add': 10, 'get': 8, 'iter': 1.5, 'len': 1, 'lookup': 2, 'sync': 1.5,
         'close': 2, 'open_r': 2, 'open_a': 2, 'fsck': 0.5, 'add_invalid': 0, 'merge': 0,
         'open_merged': 0, 'create_assoc': 0, 'save': 1, 'get_oob': 1.5, 'append_merged': 0,
-        'iter_live': 1.0, 'save_invalid': 0.5, 'dup_create': 0,
-        'merge_refused': 0, 'merge_faulted': 0,
+        'iter_live': 1.0, 'save_invalid': 0.5, 'dup_create': 0, 'bulk_add': 0,
+        'merge_refused': 0, 'merge_faulted': 0, 'remove_merged': 0,
     }
     if prop == 'C03':
         cfg['fs_pool'] = rng.sample(G.EXTRA_SETS, rng.randint(1, 4))
@@ -72,7 +76,7 @@ def draw_config(rng: random.Random, prop: str) -> dict:
         cfg['max_rows'] = rng.randint(1, 5)
         cfg['layout'] = rng.choices(['single', 'assoc'], [0.6, 0.4])[0]
         w.update(create=4, add=8, close=5, merge=6, open_merged=6, get=10, lookup=3, open_a=0.5,
-                 open_r=0.5, sync=0.3, append_merged=0.7, merge_refused=1, save=0)
+                 open_r=0.5, sync=0.3, append_merged=0.7, merge_refused=1, save=0, remove_merged=0.8)
         cfg['steps'] = rng.randint(15, 60)
     elif prop == 'C10':
         cfg['fs_pool'] = rng.choice([[], ['vx_t'], ['vx_p'], ['vx_s', 'vx_t'], ['vx_o']])
@@ -91,6 +95,9 @@ def draw_config(rng: random.Random, prop: str) -> dict:
     for k in ('iter', 'sync', 'lookup', 'fsck', 'get_oob', 'save'):
         if rng.random() < 0.25:
             w[k] = 0
+    if prop in ('C07', 'C08', 'C03') and rng.random() < 0.03:
+        w['bulk_add'] = 3          # a store with hundreds of (tiny) trajectories
+        cfg['regime'] = 'tiny'
     cfg['weights'] = w
     cfg['caches'] = rng.choice([[1], [2048], [1, 2, 2048], [1, 2048]])
     if cfg['regime'] == 'pressure':
@@ -113,6 +120,8 @@ class Gen:
         p_script = {'C10': 0.55, 'C09': 0.4, 'C08': 0.25}.get(cfg['prop'], 0.0)
         if rng.random() < p_script:
             self.script = self.merge_scenario()
+        if self.script is None and rng.random() < {'C03': 0.12, 'C09': 0.1}.get(cfg['prop'], 0.0):
+            self.script = self.override_scenario()
 
     # ---- scripted scenarios (ops are still validated and recorded one by one)
     def merge_scenario(self):
@@ -186,6 +195,8 @@ class Gen:
             if kind != 'pattern_missing_index':
                 mop.pop('pattern', None)
             mop.update(op='merge_refused', kind=kind)
+            if kind == 'duplicate_basename' and rng.random() < 0.5:
+                mop['via_pattern'] = True
             if extra:
                 # order-sensitive refusal rules: the odd one out goes first or last most of the time
                 pos = rng.choice([0, len(order), len(order), rng.randint(0, len(order))])
@@ -220,6 +231,91 @@ class Gen:
                 yield {'op': 'lookup', 'sess': sid, 'fid': fid}
             if rng.random() < 0.5:
                 yield {'op': 'iter', 'sess': sid}
+
+    def override_scenario(self):
+        """A field set the store already has is recomputed into an associated file by
+        create_associated (alone or next to a new field set); the files are then opened - singly or
+        merged - with and without override=True, in either order of the associated files."""
+        rng = self.rng
+        for sid in list(self.sim.sessions):
+            yield {'op': 'close', 'sess': sid}
+        gid = self.new_group()
+        g = self.groups[gid]
+        if not g['fs']:
+            g['fs'] = [rng.choice(G.EXTRA_SETS)]
+        merged = self.cfg['prop'] == 'C09' or rng.random() < 0.25
+        if merged:
+            g['subdirs'] = False
+        k = rng.randint(1, 3) if merged else 1
+        dup = rng.sample(g['fs'], rng.randint(1, min(2, len(g['fs']))))
+        avail = [x for x in G.EXTRA_SETS if x not in g['fs']]
+        new = rng.sample(avail, rng.choice([0, 1, 1])) if avail else []
+        names = []
+        for _ in range(k):
+            op = self._create_in_group(gid, force_file=True)
+            yield op
+            for _ in range(rng.randint(1, 3)):
+                sess = self.sim.sessions.get(op['sess'])
+                if sess is None:
+                    break
+                yield {'op': 'add', 'sess': op['sess'],
+                       'traj': self.traj_spec(gid, first_of_file=len(self.sim._rows(sess)) == 0,
+                                              fs=list(sess.visible_fs), file=sess.file, new_species=False)}
+            yield {'op': 'close', 'sess': op['sess']}
+            f = self.sim.files.get(op['file'])
+            if f is None or not f.exists:
+                return
+            names.append(op['file'])
+            sid = self.new_sid()
+            yield {'op': 'open', 'sess': sid, 'file': f.name, 'mode': 'r',
+                   'assoc': [a for a, _ in f.assoc] if rng.random() < 0.7 else [], 'cache': self.pick_cache()}
+            uni = list(g['species'])
+            sp = {fld: list(uni) for fld in G.species_fields(new + dup)}
+            yield {'op': 'create_assoc', 'sess': sid, 'file': f'{f.name[:-3]}.x0.nc', 'fs': list(new),
+                   'dup_fs': list(dup), 'fn_seed': rng.randint(1, 10 ** 6), 'species': sp, 'extreme': False}
+            yield {'op': 'close', 'sess': sid}
+        for _ in range(rng.randint(1, 3)):
+            override = rng.random() < 0.6
+            if merged:
+                self.nmerged += 1
+                out = f'm{self.nmerged}.aeic-store'
+                if not any(m.kind == 'base' and m.parts == names for m in self.sim.merged.values()):
+                    yield {'op': 'merge', 'out': out, 'inputs': list(names)}
+                    assoc_names = []
+                    for akey in list(range(g['n_assoc'])) + [100]:
+                        self.nmerged += 1
+                        an = f'm{self.nmerged}a{akey}.aeic-store'
+                        assoc_names.append(an)
+                        yield {'op': 'merge', 'out': an, 'inputs': list(names), 'assoc_key': akey}
+                    self._ov_merged = (out, assoc_names)
+                out, assoc_names = self._ov_merged
+                order = [a for a in assoc_names if a.endswith('a100.aeic-store') or rng.random() < 0.7]
+                if rng.random() < 0.4:
+                    rng.shuffle(order)
+                sid = self.new_sid()
+                yield {'op': 'open_merged', 'sess': sid, 'merged': out, 'assoc': order,
+                       'override': override, 'cache': self.pick_cache()}
+            else:
+                f = self.sim.files[names[0]]
+                order = [a for a, _ in f.assoc if rng.random() < 0.7] + [a for a, _ in f.extra_assoc]
+                if rng.random() < 0.4:
+                    rng.shuffle(order)
+                sid = self.new_sid()
+                yield self._open_forms({'op': 'open', 'sess': sid, 'file': f.name, 'mode': 'r', 'assoc': order,
+                                        'override': override, 'cache': self.pick_cache()})
+            sess = self.sim.sessions.get(sid)
+            if sess is None:
+                continue
+            n = len(self.sim._rows(sess))
+            for i in rng.sample(range(n), min(n, 5)):
+                yield {'op': 'get', 'sess': sid, 'idx': i}
+            specs = self.sim._specs(sess)
+            ids = [x['fid'] for x in specs if x.get('fid') is not None]
+            for fid in rng.sample(ids, min(len(ids), 2)):
+                yield {'op': 'lookup', 'sess': sid, 'fid': fid}
+            if rng.random() < 0.4:
+                yield {'op': 'iter', 'sess': sid}
+            yield {'op': 'close', 'sess': sid}
 
     def _create_in_group(self, gid, force_file=False):
         g = self.groups[gid]
@@ -400,6 +496,8 @@ class Gen:
             cands.append(('create', w['create'] * (3 if not open_sessions and not closed_files else 1)))
         if writable:
             cands.append(('add', w['add']))
+            if w.get('bulk_add') and not getattr(self, 'bulk_done', False):
+                cands.append(('bulk_add', w['bulk_add']))
             if w['add_invalid']:
                 cands.append(('add_invalid', w['add_invalid']))
         if open_sessions:
@@ -426,6 +524,7 @@ class Gen:
         if sim.merged and len(open_sessions) < 3:
             cands.append(('open_merged', w['open_merged']))
             cands.append(('append_merged', w['append_merged']))
+            cands.append(('remove_merged', w.get('remove_merged', 0)))
         cands = [(k, x) for k, x in cands if x > 0]
         if not cands:
             return None
@@ -471,6 +570,10 @@ class Gen:
         if sess.kind == 'mem':
             if self.cfg['regime'] != 'pressure':
                 spec['n'] = rng.choice([spec['n'], rng.randint(1500, 4000)])
+            if self.cfg['prop'] == 'C07' and rng.random() < 0.12:
+                # a flight with no points: accepted and counted by an in-memory store (reading one
+                # back from a file is outside what the store supports - see DESIGN 10.7)
+                spec['n'] = 0
         return {'op': 'add', 'sess': sess.sid, 'traj': spec}
 
     def g_get(self):
@@ -539,7 +642,10 @@ class Gen:
             fid = rng.choice([0, -1, 12345, rng.randint(-10 ** 6, 10 ** 6)] + [i + 1 for i in ids[:3]])
             if fid in ids:
                 return None
-        return {'op': 'lookup', 'sess': sess.sid, 'fid': fid}
+        op = {'op': 'lookup', 'sess': sess.sid, 'fid': fid}
+        if rng.random() < 0.3:
+            op['np'] = True
+        return op
 
     def g_sync(self):
         ss = [s for s in self.sim.sessions.values() if s.kind in ('create', 'append', 'mem')]
@@ -573,8 +679,27 @@ class Gen:
         names = [a for a, _ in list(f.assoc) + list(f.extra_assoc) if not f.assoc_where.get(a)]
         r = rng.random()
         assoc = names if r < 0.6 else [] if r < 0.75 else [a for a in names if rng.random() < 0.5]
-        return {'op': 'open', 'sess': self.new_sid(), 'file': f.name, 'mode': 'r', 'assoc': assoc,
-                'cache': self.pick_cache()}
+        op = {'op': 'open', 'sess': self.new_sid(), 'file': f.name, 'mode': 'r',
+              'assoc': assoc, 'cache': self.pick_cache()}
+        if f.alt:
+            assoc = list(assoc)
+            if rng.random() < 0.4:
+                rng.shuffle(assoc)
+            op['assoc'] = assoc
+            op['override'] = rng.random() < 0.5
+        elif rng.random() < 0.1:
+            op['override'] = True          # nothing to override: must change nothing
+        return self._open_forms(op)
+
+    def _open_forms(self, op):
+        r = self.rng.random()
+        if r < 0.2:
+            op['via'] = 'ctor_str'
+        elif r < 0.3:
+            op['via'] = 'ctor_enum'
+        if self.rng.random() < 0.3:
+            op['path_as'] = 'Path'
+        return op
 
     def g_open_a(self):
         rng = self.rng
@@ -582,8 +707,8 @@ class Gen:
         if not cands:
             return None
         f = rng.choice(cands)
-        return {'op': 'open', 'sess': self.new_sid(), 'file': f.name, 'mode': 'a',
-                'cache': self.pick_cache()}
+        return self._open_forms({'op': 'open', 'sess': self.new_sid(), 'file': f.name, 'mode': 'a',
+                                 'cache': self.pick_cache()})
 
     def g_fsck(self):
         f = self.rng.choice(self._closed())
@@ -603,6 +728,28 @@ class Gen:
         if fs and rng.random() < 0.5:
             assoc.append([f'g{gid}_{i}.a0.nc', [fs[-1]]])
         return {'op': 'save', 'sess': sess.sid, 'file': name, 'group': gid, 'assoc': assoc}
+
+    def g_bulk_add(self):
+        rng = self.rng
+        ws = [s for s in self.sim.sessions.values() if s.kind in ('create', 'append')]
+        if not ws:
+            return None
+        sess = rng.choice(ws)
+        f = sess.file
+        if f.assoc or len(f.rows) > 40:
+            return None
+        gid = f.group
+        g = self.groups[gid]
+        fs = list(f.all_fs)
+        if any(x in fs for x in ('vx_wide', 'emissions')):
+            return None
+        self.bulk_done = True
+        ident = f.ident if f.exists else g['ident']
+        sp = {fld: list(f.species if (f.exists and f.species is not None) else g['species'])
+              for fld in G.species_fields(fs)}
+        return {'op': 'bulk_add', 'sess': sess.sid, 'count': rng.choice([130, 260, 300, 520]),
+                'cs0': 10 ** 6 + rng.randint(0, 10 ** 5) * 1000, 'fs': fs, 'ident': bool(ident),
+                'fid0': 5 * 10 ** 8 + rng.randint(0, 10 ** 6) * 10000, 'species': sp}
 
     def g_save_invalid(self):
         rng = self.rng
@@ -645,6 +792,14 @@ class Gen:
         fsets = rng.sample(avail, rng.randint(1, min(2, len(avail))))
         g = self.groups[f.group]
         uni = list(g['species']) if rng.random() < 0.5 else self._species_universe()
+        dupc = [x for x in have if x in G.EXTRA_SETS]
+        if dupc and not sess.overlay and rng.random() < 0.15:
+            # recompute a field set the store already has, next to the new one(s)
+            dup = rng.sample(dupc, 1)
+            sp = {fld: list(uni) for fld in G.species_fields(fsets + dup)}
+            return {'op': 'create_assoc', 'sess': sess.sid, 'file': f'{f.name[:-3]}.x{len(f.extra_assoc)}.nc',
+                    'fs': fsets, 'dup_fs': dup, 'fn_seed': rng.randint(1, 10 ** 6), 'species': sp,
+                    'extreme': rng.random() < self.cfg['extreme_p']}
         sp = {fld: list(uni) for fld in G.species_fields(fsets)}
         later = None
         if sp and rng.random() < 0.35:
@@ -652,6 +807,11 @@ class Gen:
             pool = list(uni) + ([x for x in G.SPECIES_NAMES if x not in uni][:2] if rng.random() < 0.4 else [])
             later = {fld: sorted(rng.sample(pool, rng.randint(1, len(pool))), key=G.SPECIES_NAMES.index)
                      for fld in sp}
+        if not later and rng.random() < 0.3:
+            return {'op': 'create_assoc', 'sess': sess.sid,
+                    'file': f'{f.name[:-3]}.x{len(f.extra_assoc)}.nc', 'fs': fsets,
+                    'fn_seed': rng.randint(1, 10 ** 6), 'species': sp, 'extra_args': True,
+                    'extreme': rng.random() < self.cfg['extreme_p']}
         if later:
             return {'op': 'create_assoc', 'sess': sess.sid,
                     'file': f'{f.name[:-3]}.x{len(f.extra_assoc)}.nc', 'fs': fsets,
@@ -675,13 +835,20 @@ class Gen:
             kinds += ['required_none', 'extra_fieldset', 'id_mismatch']
             if f.all_fs:
                 kinds.append('missing_fieldset')
-        if f.exists and sess.cache_mb <= 2:
+        if sess.cache_mb <= 2:
             kinds.append('oversize')
         kind = rng.choice(kinds)
         fs = list(f.all_fs)
         first = not f.exists
         if kind == 'oversize':
-            spec = self.traj_spec(gid, first_of_file=False, fs=fs, ident=f.ident, file=f)
+            ident = f.ident if f.exists else self.groups[gid]['ident']
+            if first and not f.assoc and rng.random() < 0.6:
+                # nothing is decided before the first successful addition: the rejected trajectory
+                # may have other field sets and use identifiers differently from what follows
+                pool = [x for x in G.EXTRA_SETS if x not in ('emissions', 'vx_wide')]
+                fs = rng.sample(pool, rng.randint(0, 2))
+                ident = rng.choice([True, False])
+            spec = self.traj_spec(gid, first_of_file=first, fs=fs, ident=ident, file=f)
             per_point = max(1, G.est_nbytes(fs, 1000) // 1000)
             spec['n'] = int(sess.cache_mb * 1048576 / per_point) + rng.randint(50, 500)
             return {'op': 'add_invalid', 'sess': sess.sid, 'kind': kind, 'traj': spec}
@@ -753,7 +920,12 @@ class Gen:
         if rng.random() < 0.5:
             chosen.sort(key=lambda f: f.name)
         self.nmerged += 1
-        op = {'op': 'merge', 'out': f'm{self.nmerged}.aeic-store', 'inputs': [f.name for f in chosen]}
+        out = f'm{self.nmerged}.aeic-store'
+        free = [n for n in getattr(self, 'removed', []) if n not in sim.merged and not os.path.exists(sim.path(n))]
+        if free and rng.random() < 0.8:
+            out = free[-1]       # a path that held another merged store earlier in this process
+            self.removed.remove(out)
+        op = {'op': 'merge', 'out': out, 'inputs': [f.name for f in chosen]}
         # numbered pattern when the chosen files are consecutive members of the group
         idxs = [int(os.path.basename(f.name).split('_')[1].split('.')[0]) for f in chosen]
         if idxs == list(range(idxs[0], idxs[0] + len(idxs))) and rng.random() < 0.5 \
@@ -772,6 +944,73 @@ class Gen:
                  and rng.random() < 0.8]
         return {'op': 'open_merged', 'sess': self.new_sid(), 'merged': m.name, 'assoc': assoc,
                 'cache': self.pick_cache()}
+
+    def g_remove_merged(self):
+        sim = self.sim
+        ms = [m for m in sim.merged.values() if m.kind == 'base' and m.complete
+              and all(sim.files[p].open_by is None for p in m.parts)]
+        if not ms or len(sim.sessions) >= 2:
+            return None
+        m = self.rng.choice(ms)
+        if not hasattr(self, 'removed'):
+            self.removed = []
+        if self.rng.random() < 0.6:
+            self.script = self.reuse_scenario(m)
+            return next(self.script)
+        self.removed.append(m.name)
+        return {'op': 'remove_merged', 'merged': m.name}
+
+    def reuse_scenario(self, m):
+        """A merged store is used, deleted by the operator, and another merge - of other inputs -
+        is written to the same path and used, all in one process."""
+        rng = self.rng
+        sim = self.sim
+        gid = sim.files[m.parts[0]].group
+        nparts = len(m.parts)
+        if rng.random() < 0.8:
+            sid = self.new_sid()
+            yield {'op': 'open_merged', 'sess': sid, 'merged': m.name, 'assoc': [], 'cache': self.pick_cache()}
+            if sim.sessions.get(sid) is not None:
+                yield {'op': 'get', 'sess': sid, 'idx': 0}
+                yield {'op': 'close', 'sess': sid}
+        yield {'op': 'remove_merged', 'merged': m.name}
+        if m.name in sim.merged:
+            return
+        if rng.random() < 0.3:
+            gid = self.new_group()
+        k = rng.choice([x for x in (1, 2, 3, 4) if x != nparts])
+        names = []
+        for _ in range(k):
+            op = self._create_in_group(gid, force_file=True)
+            yield op
+            for _ in range(rng.randint(1, 3)):
+                sess = sim.sessions.get(op['sess'])
+                if sess is None:
+                    break
+                yield {'op': 'add', 'sess': op['sess'],
+                       'traj': self.traj_spec(gid, first_of_file=len(sim._rows(sess)) == 0,
+                                              fs=list(sess.visible_fs), file=sess.file, new_species=False)}
+            yield {'op': 'close', 'sess': op['sess']}
+            f = sim.files.get(op['file'])
+            if f is not None and f.exists:
+                names.append(op['file'])
+        if not names:
+            return
+        yield {'op': 'merge', 'out': m.name, 'inputs': names}
+        sid = self.new_sid()
+        yield {'op': 'open_merged', 'sess': sid, 'merged': m.name, 'assoc': [], 'cache': self.pick_cache()}
+        sess = sim.sessions.get(sid)
+        if sess is None:
+            return
+        self.sim.probes['merged_path_reused'] += 1
+        n = len(sim._rows(sess))
+        for i in rng.sample(range(n), min(n, 5)):
+            yield {'op': 'get', 'sess': sid, 'idx': i}
+        yield {'op': 'get', 'sess': sid, 'idx': n}
+        ids = [x['fid'] for x in sim._specs(sess) if x.get('fid') is not None]
+        for fid in rng.sample(ids, min(len(ids), 3)):
+            yield {'op': 'lookup', 'sess': sid, 'fid': fid}
+        yield {'op': 'close', 'sess': sid}
 
     def g_append_merged(self):
         ms = [m for m in self.sim.merged.values() if m.kind == 'base' and m.complete]
